@@ -24,6 +24,24 @@ Theorem C20_members_in_step :
 Proof. exact members_in_step. Qed.
 Print Assumptions C20_members_in_step.
 
+(* The same with GNU long name / long link records (type L / K, with or without the visor magic) in
+   front of any member: the record renames the member that follows and iteration stays in step. *)
+Theorem C20_members_in_step_long :
+  forall l rest, wf_itemsb l = true -> stops l rest ->
+  exists ms, members true (render_items l ++ rest) = Done ms /\ map entry_of_t ms = listing_items 0 l.
+Proof. exact members_in_step_items. Qed.
+Print Assumptions C20_members_in_step_long.
+
+(* Whatever was listed: a member that carries data extracts to file[offset_data, offset_data + size)
+   (with C20_members_in_step(_long): offset_data is the recorded offset of a stored-away member and
+   the position after the header otherwise). *)
+Theorem C20_extract_listed :
+  forall f t, has_data (t_type t) = true -> 0 <= t_size t -> t_data t + t_size t <= blen f ->
+  extract f t = Done (Some (t_data t, t_size t)) /\
+  plan_bytes f (t_data t, t_size t) = slice f (t_data t) (t_size t).
+Proof. exact extract_listed. Qed.
+Print Assumptions C20_extract_listed.
+
 (* A member with a recorded data offset extracts to file[offset, offset + size), wherever that is. *)
 Theorem C20_extract_stored_away :
   forall a1 m a2 rest,
@@ -59,15 +77,12 @@ Print Assumptions C20_extract_inline.
 (* VisorTarInfo.frombuf decodes every field of a rendered header (generated magic, slice bounds
    and struct formats of vmtar.py against the format's layout). *)
 Theorem C20_header_roundtrip :
-  forall m, wf_memberb m = true ->
+  forall m, wf_hdrb m = true ->
   frombuf true (header m) =
   HOk (mkhdr (spec_name m) (a_link m) (a_size m) (spec_type m) (a_visor m)
              (if a_visor m then a_voff m else 0) (if a_visor m then a_text m else 0)
              (if a_visor m then a_fix m else 0)).
-Proof.
-  intros m H. rewrite (frombuf_header m (wf_memberb_WF m H)).
-  unfold vhdr_of, hdr_of. destruct (a_visor m); reflexivity.
-Qed.
+Proof. exact header_roundtrip. Qed.
 Print Assumptions C20_header_roundtrip.
 
 (* On ANY byte string in which no block carries the visor magic, the vmtar reader is the
@@ -98,3 +113,14 @@ Example C20_example_run :
          (([115], [], (48, 3, 1024, 1536), (false, 0, 0)), Done (Some (1536, 3)));
          (([116; 47; 97], [], (48, 7, 2048, 2048), (true, 0, 0)), Done (Some (2048, 7))) ].
 Proof. exact ex_run. Qed.
+(* a 122-byte GNU long name (record with the visor magic) on a visor file whose data is stored away *)
+Example C20_example_long_wf : wf_itemsb ex_items = true.
+Proof. exact ex_items_wf. Qed.
+Example C20_example_long_stops : stops ex_items ex_items_rest.
+Proof. exact ex_items_stops. Qed.
+Example C20_example_long_run :
+  match members true (render_items ex_items ++ ex_items_rest) with
+  | Done ms => map (fun t => (length (t_name t), t_off t, t_data t)) ms
+  | _ => []
+  end = [(1%nat, 0, 512); (122%nat, 512, 2055); (1%nat, 2048, 2560); (3%nat, 3072, 2048)].
+Proof. exact ex_items_names. Qed.
